@@ -448,6 +448,12 @@ def k1_handler_depth(res, tier):
             preset[pl] = params
         else:
             params = bv(0, 32)
+        # reachability flag (present since the repair of the simulation on unreachable loops): any value
+        rc_l = f.debug.get('reachable')
+        reach = z3.BoolVal(True)
+        if rc_l and re.match(r'^_\d+$', rc_l):
+            reach = z3.Bool('reachable')
+            preset[rc_l] = reach
         try:
             e.exec_fn(f, [Ref(Cell(fbuild)), SliceRef(prog, bv(0, 64), None)], 0, None, start_bb=head,
                       preset=preset)
@@ -469,7 +475,7 @@ def k1_handler_depth(res, tier):
             otag = TermBacking(elem, lslots.tyname).child('tag').leaf(e, z3.BitVecSort(64))
             oval = TermBacking(elem, lslots.tyname).child('Some').child(0).leaf(e, z3.BitVecSort(32))
             e.add_constraint(z3.ULT(otag, 2))
-            start = z3.If(z3.And(is_label, z3.Not(falls), z3.ULT(lab, lslots.len), otag == 1), oval, slots0)
+            start = z3.If(z3.And(is_label, z3.Or(z3.Not(falls), z3.Not(reach)), z3.ULT(lab, lslots.len), otag == 1), oval, slots0)
             e.assume(z3.And(oval >= 0, oval < (1 << 15)))
         e.check(slots1 == start + eff, 'running depth advances by the instruction effect (a label behind an unconditional transfer takes the depth of its jump)')
         after = prog.load(e, k)
